@@ -48,6 +48,7 @@ func init() {
 	vModes["engine-replay"] = func(t *testing.T) {
 		out := vOpen("engine-replay")
 		defer out.close()
+		vFastPark = os.Getenv("VERIF_FASTPARK") == "1"
 		fh, err := os.Open(os.Getenv("VERIF_REPLAY"))
 		if err != nil {
 			t.Fatal(err)
@@ -92,6 +93,15 @@ func init() {
 				}()
 				for _, o := range ops {
 					x.do(o)
+				}
+				// end-of-history monitors (exactly one terminal reply per request …) apply when nothing is held or queued any more
+				live := 0
+				for _, key := range x.keys {
+					ks := v.keySnap(key)
+					live += len(ks.holds) + len(ks.waits)
+				}
+				if live == 0 {
+					x.mon.drained(x)
 				}
 			}()
 			select {
